@@ -59,6 +59,8 @@ void (*env_syscall_hook)(const char *name, long a, long b, long c);
 #define ENV_HOOK(name, a, b, c) do { if (env_syscall_hook) env_syscall_hook(name, (long)(a), (long)(b), (long)(c)); } while (0)
 
 #define MAXFD 2048
+#define ZOMBIE_BASE 3000      /* parked half-closed ends live above every descriptor the library can own */
+static int n_zombies;
 static int fd_hi;     /* highest descriptor number ever tracked + 1 */
 
 enum { K_NONE = 0, K_TCP, K_UNIXSEQ, K_TIMER, K_EPOLL, K_EVENTFD, K_OTHER };
@@ -91,6 +93,8 @@ struct efd {
     int silent;
     int peer_fd;
     int peer_closed;       /* the other end closed orderly */
+    int zombie_fd;         /* >0: the peer's closed end, parked half-closed so that this end sees what TCP shows
+                              after a FIN (EPOLLIN|EPOLLRDHUP) rather than AF_UNIX's EPOLLHUP */
     int swallowed;
     int reset_pending;
     int stalled;
@@ -504,6 +508,10 @@ static int poll_emulated(struct pollfd *fds, nfds_t n)
             fds[i].revents = forced[i] > 0 ? forced[i] : 0;
         } else if (forced[i] == -1)
             fds[i].events |= POLLOUT;
+        /* once the peer's RST is in (first write after its FIN) TCP reports POLLERR next to POLLHUP */
+        if (fds[i].fd >= 0 && fds[i].fd < MAXFD && fdt[fds[i].fd].kind == K_TCP && fdt[fds[i].fd].swallowed &&
+            (fds[i].revents & POLLHUP))
+            fds[i].revents |= POLLERR;
         if (fds[i].revents)
             cnt++;
     }
@@ -1028,6 +1036,11 @@ static void tcp_disconnect(int fd)
     e->silent = 0;
     e->peer_fd = -1;
     e->peer_closed = e->swallowed = e->stalled = e->dead = 0;
+    if (e->zombie_fd > 0) {
+        __real_close(e->zombie_fd);
+        n_zombies--;
+        e->zombie_fd = 0;
+    }
     memset(&e->remote, 0, sizeof e->remote);
     regs_reapply_fd(fd);
 }
@@ -1592,6 +1605,13 @@ ssize_t __wrap_send(int fd, const void *buf, size_t len, int flags)
         /* TCP: the first write after the peer's FIN is accepted (and answered by RST),
            later ones fail with EPIPE.  A real kernel may also have the RST in already. */
         if (!e->swallowed) {
+            /* either way the peer's RST is in afterwards: the socket then reports EPOLLERR|EPOLLHUP on a real
+               kernel; dropping the parked half-closed end raises AF_UNIX's EPOLLHUP */
+            if (e->zombie_fd > 0) {
+                __real_close(e->zombie_fd);
+                n_zombies--;
+                e->zombie_fd = 0;
+            }
             int at_once = 0;
             if ((cfg.io_menu & ENV_IO_FINSWALLOW) && dev_enabled(e)) {
                 char lb[48];
@@ -1757,11 +1777,25 @@ int __wrap_close(int fd)
                 ioctl(fd, FIONREAD, &unread);
             if (e->peer_fd >= 0 && fdt[e->peer_fd].peer_fd == fd) {
                 struct efd *p = &fdt[e->peer_fd];
-                if (unread == 0 && !e->dead)
+                if (unread == 0 && !e->dead) {
                     p->peer_closed = 1;
-                else
+                    /* orderly close = FIN: keep this end alive as a write-shut zombie until the peer closes
+                       too.  The peer then polls EPOLLIN|EPOLLRDHUP and reads EOF, as with TCP in CLOSE_WAIT;
+                       closing the AF_UNIX socket outright would raise EPOLLHUP, which no interest mask can
+                       filter and real TCP does not report here (conformance/conf.c) */
+                    shutdown(fd, SHUT_WR);
+                    int z = fcntl(fd, F_DUPFD_CLOEXEC, ZOMBIE_BASE);
+                    if (z >= 0) {
+                        p->zombie_fd = z;
+                        n_zombies++;
+                    }
+                } else
                     p->reset_pending = 1;
                 p->peer_fd = -1;
+            }
+            if (e->zombie_fd > 0) {
+                __real_close(e->zombie_fd);
+                n_zombies--;
             }
         }
         regs_drop_fd(fd, 1);
@@ -1782,7 +1816,7 @@ int env_open_fd_count(void)
         if (de->d_name[0] != '.')
             n++;
     closedir(d);
-    return n - 1; /* the directory's own descriptor */
+    return n - 1 - n_zombies; /* the directory's own descriptor; the shim's parked half-closed ends */
 }
 
 int env_lib_fds_open(void)
